@@ -127,7 +127,7 @@ class G(object):
             elif k < 0.68 and o['tables']:
                 out.append(self.tabular(depth - 1))
             elif k < 0.74:
-                out.append({'t': 'env', 'env': r.choice(['quote', 'center', 'quotation', 'flushleft']), 'c': self.blocks(depth - 1, r.randint(1, 2))})
+                out.append({'t': 'env', 'env': r.choice(['quote', 'center', 'quotation', 'flushleft', 'minipage']), 'c': self.blocks(depth - 1, r.randint(1, 2), in_list=in_list)})
             elif k < 0.80 and o['math']:
                 out.append(self.dmath())
             elif k < 0.84 and o['verbatim']:
@@ -270,6 +270,7 @@ class G(object):
             if self.o['labels'] and r.random() < 0.6:
                 node['label'] = self.newlabel('fig' if kind == 'figure' else 'tab')
         node['caption_first'] = r.random() < 0.3
+        node['wide'] = r.random() < 0.2          # figure* / table*: the two-column forms, numbered like the plain ones
         if node['caption'] is not None and r.random() < 0.15:
             node['cap_env'] = r.choice(['center', 'flushleft'])      # the caption stands inside an environment within the float
         return node
@@ -474,7 +475,7 @@ def p_blocks(blocks, ind=''):
         elif t == 'tabular':
             out.append(p_tabular(b))
         elif t == 'env':
-            out.append('\\begin{%s}\n%s\\end{%s}\n' % (b['env'], p_blocks(b['c']), b['env']))
+            out.append('\\begin{%s}%s\n%s\\end{%s}\n' % (b['env'], '{6cm}' if b['env'] == 'minipage' else '', p_blocks(b['c']), b['env']))
         elif t == 'dmath':
             body = ' = '.join(b['words'])
             out.append('\\[ %s \\]\n' % body if b['style'] == '\\[' else '\\begin{displaymath} %s \\end{displaymath}\n' % body)
@@ -506,7 +507,8 @@ def p_blocks(blocks, ind=''):
                     cap = '\\begin{%s}\n%s\\end{%s}\n' % (b['cap_env'], cap, b['cap_env'])
             inner = p_blocks(b['c'])
             body = cap + inner if b['caption_first'] else inner + cap
-            out.append('\\begin{%s}\n%s\\end{%s}\n' % (b['kind'], body, b['kind']))
+            env = b['kind'] + ('*' if b.get('wide') else '')
+            out.append('\\begin{%s}\n%s\\end{%s}\n' % (env, body, env))
         elif t == 'theorem':
             s = '\\begin{%s}' % b['env']
             if b['title'] is not None:
